@@ -8,6 +8,7 @@ import ast
 
 from .. import astutil as A
 from ..fa import FA
+from .valeq import check_typed_identity
 
 RL = "runner_local"
 
@@ -193,7 +194,14 @@ def check(ck):
                 ok10 = False
     ck.ob(R4, br.key(loop.ast, "not-served-runs"), ok10, "a non-served element runs through memento_run_local (per-call mutex, re-check)" if ok10 else
           "an element without a valid served result can skip memento_run_local", br.where(loop.ast))
+    rl = FA(ck, RL + ".memento_run_local")
+    lk = rl.calls("get_memento")
+    okl = bool(lk) and all(rl.unconditional(c) for c in lk) and all(rl.cfg.must_pass(rl.nodes_all(lk), i) for i in rl.nodes_all(rl.calls("_filter_call")))
+    ck.ob(R4, rl.key(None, "recheck-unconditional"), okl, "memento_run_local looks the call up again, unconditionally, before running the body" if okl else
+          "memento_run_local can skip its own store lookup (it trusts an earlier bulk query): an element memoized by an earlier element of the "
+          "same batch (duplicate, or a callee) runs its body again", rl.where(lk[0] if lk else None))
     for c in runs:
         okc = A.kwarg(c, "fn_reference_with_args") is not None and A.norm(A.kwarg(c, "fn_reference_with_args")) == A.norm(loop.ast.target.elts[1])
         ck.ob(R4, br.key(c, "element"), okc, "memento_run_local receives the loop element" if okc else
               "memento_run_local is not called with the current element", br.where(c))
+    check_typed_identity(ck, "C15.R5", ("base", "runner_local"))
